@@ -630,7 +630,42 @@ ASSUMPTIONS = [
     'the strict helper bodies are correct',
 ]
 
+# ----------------------------------------------------------------------
+# G1 construction gives every row cells of its own
+
+def g1_fresh_rows(ctx: Ctx):
+    """`empty(d1, ..., dk)`: every row of every level is a list allocated for that row alone.  The element of each
+    row-building comprehension must be allocated *inside* the comprehension (a recursive call of the builder, a nested
+    comprehension, the placeholder constant); an element that mentions a list built outside it -- `list(template)`,
+    `template[:]`, `template` -- is the same inner rows once per outer row."""
+    fn = ctx.fn(OPS, '_empty')
+    comps = [n for n in ast.walk(fn) if isinstance(n, ast.ListComp)]
+    if not comps:
+        raise ShapeError('_empty: no list comprehension')
+    params = {a.arg for a in fn.args.args}
+    assigned = {t.id for s in ast.walk(fn) if isinstance(s, (ast.Assign, ast.AnnAssign)) for t in ([s.target] if isinstance(s, ast.AnnAssign) else s.targets) if isinstance(t, ast.Name)}
+    for c in comps:
+        loopvars = {x.id for g in c.generators for x in ast.walk(g.target) if isinstance(x, ast.Name)}
+        free = {x.id for x in ast.walk(c.elt) if isinstance(x, ast.Name) and isinstance(x.ctx, ast.Load)} - loopvars
+        outer_lists = free & assigned          # a value built earlier in the function
+        deep = any(isinstance(k, ast.Call) and (call_name(k) or '').endswith('deepcopy') for k in ast.walk(c.elt))
+        fresh = not outer_lists or deep
+        ctx.check(fresh, OPS, c, '_empty', f'row element `{norm(c.elt)}` is allocated per row',
+                  f'the element reuses `{sorted(outer_lists)[0] if outer_lists else "?"}`, built once outside the comprehension: with three or more dimensions the '
+                  'innermost rows are shared between planes, so `t[1][0][0] = 7; t[0][0][0] = 1` overwrites the 7')
+    # the recursion descends one dimension at a time
+    rec = [k for k in calls_in(fn) if call_name(k) == '_empty']
+    if rec:
+        ctx.check(all(norm(k.args[0]) == 'dims_list[1:]' for k in rec), OPS, rec[0], '_empty', 'the recursion allocates the remaining dimensions (`dims_list[1:]`)',
+                  f'recursion on {[norm(k.args[0]) for k in rec]}')
+    user = ctx.fn(OPS, 'empty') if ctx.repo.has_func(OPS, 'empty') else None
+    if user is not None:
+        ks = [k for k in calls_in(user) if call_name(k) == '_empty']
+        ctx.check(len(ks) == 1, OPS, user, 'empty', 'empty() allocates through _empty', f'calls {[norm(k) for k in ks]}')
+
+
 RULES = [
+    Rule('C04.G1', 'empty(d1, ..., dk) gives every row of every level cells of its own', g1_fresh_rows, 2, 'G'),
     Rule('C04.T1', 'operator identity: parser tables o interpreter tables = identity on operation names (alias table stated)', t1_operator_identity, 120, 'T'),
     Rule('C04.X1', 'every parser-constructible operator node has an emit route of its own arity; all visitor methods implemented', x1_nodes_accepted, 115, 'X'),
     Rule('C04.F1', 'context threading: ctx=__ctx__ on every table-driven call, __ctx__ second in __fpy_call, stored only by with-blocks', f1_context_threading, 18, 'F'),
@@ -643,6 +678,10 @@ RULES = [
 from ..selftest import Mutant  # noqa: E402
 
 MUTANTS = [
+    Mutant('empty-rows-shared', OPS, "    if len(dims_list) == 1:\n        return [UNINIT for _ in range(dims_list[0])]\n    else:\n        return [_empty(dims_list[1:]) for _ in range(dims_list[0])]",
+           "    result: list = [UNINIT for _ in range(dims_list[-1])]\n    for n in reversed(dims_list[:-1]):\n        result = [list(result) for _ in range(n)]\n    return result", 'C04.G1',
+           'seeded change C04b: inside-out construction with shallow copies'),
+    Mutant('empty-rows-one-template', OPS, "        return [_empty(dims_list[1:]) for _ in range(dims_list[0])]", "        row = _empty(dims_list[1:])\n        return [row for _ in range(dims_list[0])]", 'C04.G1'),
     Mutant('parser-sinh-is-sin', PARSER, '    sinh: Sinh,', '    sinh: Sin,', 'C04.T1'),
     Mutant('parser-fmod-is-remainder', PARSER, '    fmod: Fmod,', '    fmod: Remainder,', 'C04.T1'),
     Mutant('interp-floor-is-ceil', BYTE, '    Floor: ops.floor,', '    Floor: ops.ceil,', 'C04.T1'),
